@@ -118,6 +118,48 @@ def install(prefix="qrcode", extra=()):
                 if type(x) in _WRAP:
                     kd[k] = wrap(x, f"{name}.<default {k}>")
 
+    def is_lib_instance(v):
+        t = type(v)
+        m = getattr(t, "__module__", "") or ""
+        return (m == prefix or m.startswith(prefix + ".")) \
+            and (hasattr(v, "__dict__") or hasattr(t, "__slots__")) \
+            and not isinstance(v, (type, types.FunctionType, types.ModuleType, tuple))
+
+    def wrap_instance(obj, name):
+        # containers held in attributes of a module-level / class-level object of a library
+        # class (one level deep): a lazily extended table, a scratch buffer, ...
+        items = []
+        try:
+            items = list(vars(obj).items())
+        except TypeError:
+            pass
+        for klass in type(obj).__mro__:
+            sl = klass.__dict__.get("__slots__", ())
+            for ak in ((sl,) if isinstance(sl, str) else sl):
+                if hasattr(obj, ak):
+                    items.append((ak, getattr(obj, ak)))
+        for ak, av in items:
+            if type(av) in _WRAP:
+                try:
+                    setattr(obj, ak, wrap(av, f"{name}.{ak}"))
+                except (AttributeError, TypeError):
+                    pass
+
+    def wrap_function_state(fn, name):
+        wrap_defaults(fn, name)
+        for ak, av in list(vars(fn).items()):          # function attributes (f.cache = {})
+            if type(av) in _WRAP:
+                setattr(fn, ak, wrap(av, f"{name}.{ak}"))
+        for i, cell in enumerate(fn.__closure__ or ()):  # closure cells
+            try:
+                cv = cell.cell_contents
+            except ValueError:
+                continue
+            if type(cv) in _WRAP:
+                cell.cell_contents = wrap(cv, f"{name}.<closure {fn.__code__.co_freevars[i]}>")
+            elif is_lib_instance(cv):
+                wrap_instance(cv, f"{name}.<closure {fn.__code__.co_freevars[i]}>")
+
     for modname, mod in sorted(sys.modules.items()):
         if mod is None or not (modname == prefix or modname.startswith(prefix + ".")):
             continue
@@ -136,11 +178,15 @@ def install(prefix="qrcode", extra=()):
                     if type(cv) in _WRAP:
                         setattr(v, ck, wrap(cv, f"{modname}.{v.__name__}.{ck}"))
                     elif isinstance(cv, types.FunctionType):
-                        wrap_defaults(cv, f"{modname}.{v.__name__}.{ck}")
+                        wrap_function_state(cv, f"{modname}.{v.__name__}.{ck}")
                     elif isinstance(cv, (classmethod, staticmethod)):
-                        wrap_defaults(cv.__func__, f"{modname}.{v.__name__}.{ck}")
+                        wrap_function_state(cv.__func__, f"{modname}.{v.__name__}.{ck}")
+                    elif is_lib_instance(cv):
+                        wrap_instance(cv, f"{modname}.{v.__name__}.{ck}")
             elif isinstance(v, types.FunctionType) and v.__module__ == modname:
-                wrap_defaults(v, f"{modname}.{k}")
+                wrap_function_state(v, f"{modname}.{k}")
+            elif is_lib_instance(v):
+                wrap_instance(v, f"{modname}.{k}")
     for mod, attr, name in extra:
         v = getattr(mod, attr, None)
         if type(v) in _WRAP:
